@@ -310,7 +310,7 @@ def dispatch (cfg : Cfg) (sectionid : Nat) (parent : Option CbData) (newsectioni
                 let pd : CbData := { p with otype := otypeClose }
                 .ok ⟨[⟨wh, pd⟩], if wh = .main then cfg.cbFail pd else none, cb, nsid⟩
   | none =>
-    if cfg.defcb then .ok ⟨[⟨.dflt, cb0⟩], none, cb0, newsectionid⟩      -- return value ignored
+    if cfg.defcb then .ok ⟨[⟨.dflt, cb0⟩], none, cb0, newsectionid⟩      -- the default handler of the model never refuses (a refusal is an error like a callback's: harness mode 2, oracle only)
     else if cfg.flags &&& qacIgnoreUnknown = 0 then stop (str "Unregistered option " ++ q name ++ str ".")
     else .ok ⟨[], none, cb0, newsectionid⟩
 
